@@ -1,5 +1,5 @@
 (** C16_no_fault: every offset the model of nice_udp_turn_socket_parse_recv reads lies inside the received
-    packet -- except on the [recv:] ChannelData path (two confirmed defects, refuted by witness below). *)
+    packet, for every byte string and every source address. *)
 From Coq Require Import ZArith List Bool Lia.
 From Nice Require Import Turn.TurnModel Turn.TurnBytes.
 Import ListNotations.
@@ -272,54 +272,26 @@ Proof.
   destruct unk; eexists _, _; (split; [reflexivity|]); [destruct (cl =? C_REQUEST); intros H; discriminate H | intros _; exact Hv].
 Qed.
 
-(** * The [recv:] tail: the only place where the model can fault *)
-Definition w0 (b : bytes) : Z := nth 0 b 0 * 256 + nth 1 b 0.
-Definition w2 (b : bytes) : Z := nth 2 b 0 * 256 + nth 3 b 0.
-(* a ChannelData header is read although the packet is shorter than it, or the header announces more data than
-   the packet carries: udp-turn.c 1675-1677, 1694 *)
-Fixpoint tail_fault (l : list binding) (b : bytes) : bool :=
-  match l with
-  | [] => false
-  | bd :: l' => (blen b <? 2) || (if b_chan bd =? w0 b then (blen b <? 4) || (blen b - 4 <? w2 b) else tail_fault l' b)
-  end.
-Definition chan_overread (s : state) (b : bytes) : bool := is_rfc (c_compat (cf s)) && tail_fault (channels s) b.
-
+(** * The [recv:] tail: ChannelData is only taken for what it is after its header has been checked *)
 Lemma rd_range_all b : exists v, rd_range b 0 (blen b) = Ok v.
 Proof. apply rd_range_ok. right. lia. Qed.
-Lemma rdw0 b : 2 <= blen b -> rdw b 0 = Ok (w0 b).
-Proof. intros H. unfold rdw. rewrite !rd_ok by lia. reflexivity. Qed.
-Lemma rdw2 b : 4 <= blen b -> rdw b 2 = Ok (w2 b).
-Proof. intros H. unfold rdw. rewrite !rd_ok by lia. reflexivity. Qed.
-Lemma rdw_short b i : 0 <= i -> blen b < i + 2 -> rdw b i = Fault.
+Lemma raw_up_nofault s from b bd : exists r, raw_up s from b bd = Ok r.
+Proof. unfold raw_up. destruct (rd_range_all b) as (v & Hv). rewrite Hv. cbn [bind]. eauto. Qed.
+Lemma chan_scan_nofault s from b : bytes_ok b -> forall l, exists r, chan_scan s from b l = Ok r.
 Proof.
-  intros H0 H. unfold rdw, rd.
-  destruct ((0 <=? i) && (i <? blen b)) eqn:E1; [|reflexivity]. cbn [bind].
-  assert (E2 : (0 <=? i + 1) && (i + 1 <? blen b) = false).
-  { apply andb_false_iff. right. apply Z.ltb_ge. lia. }
-  rewrite E2. reflexivity.
+  intros Hb. induction l as [|bd l IH]; cbn [chan_scan]; [apply raw_up_nofault|].
+  destruct (4 <=? blen b) eqn:E4; [|exact IH]. apply Z.leb_le in E4.
+  destruct (rdw_ok b 0 Hb ltac:(lia) ltac:(lia)) as (ch & Hch & _). rewrite Hch. cbn [bind].
+  destruct (b_chan bd =? ch); [|exact IH].
+  destruct (rdw_ok b 2 Hb ltac:(lia) ltac:(lia)) as (rl & Hrl & Hrlr). rewrite Hrl. cbn [bind].
+  destruct (rl <=? blen b - 4) eqn:El; [|exact IH]. apply Z.leb_le in El.
+  destruct (rd_range_ok b 4 (Z.min (blen b) rl) ltac:(lia)) as (d & Hd). rewrite Hd. cbn [bind]. eauto.
 Qed.
-
-Lemma recv_tail_fault_iff s from b :
-  recv_tail s from b = Fault <-> chan_overread s b = true.
+Lemma recv_tail_nofault s from b : bytes_ok b -> recv_tail s from b <> Fault.
 Proof.
-  unfold recv_tail, chan_overread.
-  destruct (is_rfc (c_compat (cf s))); cbn [andb].
-  2:{ unfold raw_up. destruct (rd_range_all b) as (v & Hv). rewrite Hv. cbn [bind]. split; discriminate. }
-  induction (channels s) as [|bd l IH]; cbn [tail_fault chan_scan].
-  - unfold raw_up. destruct (rd_range_all b) as (v & Hv). rewrite Hv. cbn [bind]. split; discriminate.
-  - destruct (blen b <? 2) eqn:E2; cbn [orb].
-    + apply Z.ltb_lt in E2. rewrite rdw_short by lia. cbn [bind]. split; auto.
-    + apply Z.ltb_ge in E2. rewrite rdw0 by lia. cbn [bind].
-      destruct (b_chan bd =? w0 b); [|exact IH].
-      destruct (blen b <? 4) eqn:E4; cbn [orb].
-      * apply Z.ltb_lt in E4. rewrite rdw_short by lia. cbn [bind]. split; auto.
-      * apply Z.ltb_ge in E4. rewrite rdw2 by lia. cbn [bind].
-        unfold rd_range. destruct (Z.min (blen b) (w2 b) <=? 0) eqn:En.
-        -- cbn [bind]. apply Z.leb_le in En. split; [discriminate|]. intros H. apply Z.ltb_lt in H. lia.
-        -- apply Z.leb_gt in En. change (0 <=? 4) with true. cbn [andb].
-           destruct (4 + Z.min (blen b) (w2 b) <=? blen b) eqn:Ef.
-           ++ cbn [bind]. apply Z.leb_le in Ef. split; [discriminate|]. intros H. apply Z.ltb_lt in H. lia.
-           ++ cbn [bind]. apply Z.leb_gt in Ef. split; [|reflexivity]. intros _. apply Z.ltb_lt. lia.
+  intros Hb. unfold recv_tail. destruct (is_rfc _).
+  - destruct (chan_scan_nofault s from b Hb (channels s)) as (r & Hr). rewrite Hr. discriminate.
+  - destruct (raw_up_nofault s from b (match channels s with bd :: _ => Some bd | [] => None end)) as (r & Hr). rewrite Hr. discriminate.
 Qed.
 
 (** * The branches after a successful validation *)
@@ -397,40 +369,26 @@ Qed.
 End Branches.
 
 (** * C16_no_fault *)
-Theorem recv_fault_only_channeldata s from b : bytes_ok b -> recv s from b = Fault -> chan_overread s b = true.
+Theorem recv_never_faults s from b : bytes_ok b -> exists r, recv s from b = Ok r.
 Proof.
-  intros Hb. unfold recv.
-  destruct (negb (addr_eqb _ from)); [apply recv_tail_fault_iff|].
+  intros Hb. destruct (recv s from b) as [r|] eqn:E; [eauto|]. exfalso. revert E. unfold recv.
+  destruct (negb (addr_eqb _ from)); [apply recv_tail_nofault; exact Hb|].
   destruct (validate_spec (cf s) (ids s) b Hb) as (st & ids' & Hval & Hvm). rewrite Hval. cbn [bind].
-  assert (Htail : recv_tail (set_ids s ids') from b = Fault -> chan_overread s b = true)
-    by (intros H; apply recv_tail_fault_iff in H; exact H).
+  assert (Htail : recv_tail (set_ids s ids') from b <> Fault) by (apply recv_tail_nofault; exact Hb).
   destruct st; auto.
   intros H. apply Htail. apply (recv_valid_fault (set_ids s ids') from b Hb (Hvm eq_refl) H).
 Qed.
-Theorem recv_no_fault s from b : bytes_ok b -> chan_overread s b = false -> exists r, recv s from b = Ok r.
-Proof.
-  intros Hb Hc. destruct (recv s from b) eqn:E; [eauto|].
-  apply recv_fault_only_channeldata in E; [rewrite E in Hc; discriminate | exact Hb].
-Qed.
-(* the exception is exact: when it holds, a packet from anywhere but the server address faults *)
-Theorem recv_fault_when_overread s from b : addr_eqb (c_server (cf s)) from = false -> chan_overread s b = true -> recv s from b = Fault.
-Proof. intros Hf Hc. unfold recv. rewrite Hf. cbn [negb]. apply recv_tail_fault_iff. exact Hc. Qed.
 
-(** witnesses on the unchanged code's model *)
+(** examples on a state with channel 0x4000 bound: the packets that made the code before commit 7dada38 read
+    beyond them are now passed through untouched; a well-formed ChannelData packet is unwrapped *)
 Definition ex_server : addr := {| a6 := false; aip := [192; 0; 2; 1]; aport := [13; 150] |}.
 Definition ex_peer : addr := {| a6 := false; aip := [192; 168; 0; 1]; aport := [4; 0] |}.
 Definition ex_state : state :=
   set_channels (init_state {| c_compat := RFC5766; c_server := ex_server; c_user := [117]; c_pwlen := 0 |}) [ {| b_peer := ex_peer; b_chan := 16384 |} ].
-(* ChannelData whose length field (100) exceeds the 4 bytes it carries: 4 bytes are read beyond the packet *)
-Lemma no_fault_refuted_channeldata_length :
-  bytes_ok [64; 0; 0; 100; 170; 187; 204; 221] /\ recv ex_state ex_server [64; 0; 0; 100; 170; 187; 204; 221] = Fault.
-Proof. split; [repeat constructor; lia | vm_compute; reflexivity]. Qed.
-(* a 2-byte packet from any address is read as a 4-byte ChannelData header *)
-Lemma no_fault_refuted_short_packet :
-  bytes_ok [64; 0] /\ recv ex_state ex_peer [64; 0] = Fault /\ recv ex_state ex_server [64] = Fault.
-Proof. split; [repeat constructor; lia | split; vm_compute; reflexivity]. Qed.
-(* non-vacuity: a well-formed ChannelData packet and a Data indication are parsed without fault *)
 Lemma no_fault_examples :
-  chan_overread ex_state [64; 0; 0; 2; 7; 8] = false /\
-  recv ex_state ex_server [64; 0; 0; 2; 7; 8] = Ok (ex_state, [], RxData {| h_data := [7; 8]; h_from := ex_peer; h_sock := true |}).
-Proof. split; vm_compute; reflexivity. Qed.
+  recv ex_state ex_server [64; 0; 0; 2; 7; 8] = Ok (ex_state, [], RxData {| h_data := [7; 8]; h_from := ex_peer; h_sock := true |}) /\
+  recv ex_state ex_server [64; 0; 0; 100; 170; 187; 204; 221]
+    = Ok (ex_state, [], RxData {| h_data := [64; 0; 0; 100; 170; 187; 204; 221]; h_from := ex_server; h_sock := false |}) /\
+  recv ex_state ex_peer [64; 0] = Ok (ex_state, [], RxData {| h_data := [64; 0]; h_from := ex_peer; h_sock := false |}) /\
+  recv ex_state ex_server [64] = Ok (ex_state, [], RxData {| h_data := [64]; h_from := ex_server; h_sock := false |}).
+Proof. repeat split; vm_compute; reflexivity. Qed.
